@@ -34,6 +34,21 @@ def gap_position(spec):
     return None
 
 
+def _cancel(spec, lv, bid, k):
+    """payload mode "cancel": the first field is constant on every box, with values whose floating-point sum depends on the
+    order of summation (1e16, 1, -1e16, 1, ...); the other fields as in mode "pestle" """
+    lo, hi = spec["levels"][lv][bid]
+    shape = [hi[d] - lo[d] + 1 for d in range(spec["ndims"])]
+    if k == 0:
+        return np.full(shape, [1e16, 1.0, -1e16, 1.0][bid % 4])
+    if k == 1:
+        return np.full(shape, 0.5)
+    return np.ones(shape)
+
+
+plotgen.EXTRA_MODES["cancel"] = _cancel
+
+
 def build_inputs(ctx):
     root = ctx.newdir("c12in_"); os.makedirs(root)
     rng = ctx.rng
@@ -70,6 +85,9 @@ def build_inputs(ctx):
     many["fields"] = ["density", "temp", "volFrac"]
     many["data"] = {"mode": "pestle", "seed": 9}
     plotgen.materialize(many, os.path.join(root, "pltmany"))
+    # the same mesh with box integrals that do not add up associatively in floating point
+    cancel = dict(many); cancel["data"] = {"mode": "cancel", "seed": 9}
+    plotgen.materialize(cancel, os.path.join(root, "pltcancel"))
     # thermochemical states with covered cells (no temperature / no composition) in every box, boxes spread over files
     from . import c11
     sp = c11.species_spec(rng, nlev=2)
@@ -172,6 +190,8 @@ def scenarios(root, spec):
         "pestle": lambda w: {"integral": fbits(tools.pestle(I("plt00010"), "density", None, True))},
         "pestle-many": lambda w: {"integral": fbits(tools.pestle(I("pltmany"), "density", None, False)),
                                   "integral0": fbits(tools.pestle(I("pltmany"), "temp", 0, False))},
+        "pestle-cancel": lambda w: {"integral": fbits(tools.pestle(I("pltcancel"), "density", None, False)),
+                                    "integral0": fbits(tools.pestle(I("pltcancel"), "density", 0, False))},
         "chef-thermo-pool": tree(chef_thermo(False)),
         "chef-thermo-serial": tree(chef_thermo(True)),
         "whip": tree(lambda w: tools.whip(I("plt00010"), "temp", os.path.join(w, "o"))),
@@ -285,7 +305,7 @@ def run(ctx, rep, model=True):
         for name, fn in S.items():
             if name not in refs or name.endswith("-serial") or name.startswith("chef"):
                 continue
-            if ctx.quick and name not in ("colander", "whip", "reader", "pestle", "pestle-many"):
+            if ctx.quick and name not in ("colander", "whip", "reader", "pestle", "pestle-many", "pestle-cancel"):
                 continue
             case = {"scenario": name, "workers": n}
             rep.case(case, nontrivial=True); rep.count(f"workers:{n}")
